@@ -42,11 +42,13 @@ DOCS = [
 MUTATORS = ["absolute", "shapes_to_paths", "expand_shorthand", "apply_style_attributes", "resolve_use", "simplify", "clip_to_viewbox",
             "evenodd_to_nonzero_winding", "round_floats", "remove_empty_subpaths", "remove_unpainted_shapes", "remove_nonsvg_content",
             "remove_processing_instructions", "remove_anonymous_symbols", "remove_title_meta_desc", "set_attributes", "remove_attributes",
+            "set_viewbox",
             "normalize_opacity", "resolve_nested_svgs", "topicosvg"]
 QUERIES = ["shapes", "bounding_box", "view_box", "tostring", "checkpicosvg", "breadth_first"]
 MODELLED = {"absolute", "shapes_to_paths", "expand_shorthand", "apply_style_attributes", "resolve_use", "simplify", "evenodd_to_nonzero_winding",
             "round_floats", "remove_empty_subpaths", "remove_unpainted_shapes", "remove_nonsvg_content", "remove_processing_instructions",
-            "remove_anonymous_symbols", "remove_title_meta_desc", "normalize_opacity", "resolve_nested_svgs", "topicosvg", "shapes", "tostring"}
+            "remove_anonymous_symbols", "remove_title_meta_desc", "normalize_opacity", "resolve_nested_svgs", "topicosvg", "shapes", "tostring", "set_attributes", "remove_attributes", "bounding_box", "view_box"}
+# (set_viewbox is judged on the implementation only: the wire format of the model's set_attributes has no spaces in values)
 # checkpicosvg as a stand-alone query resolves clip paths while it walks (Skia calls the gate model does not make, because at
 # the gate no clip path is left): it is part of the histories judged on the implementation, not of the model correspondence
 STEPS = [(m, "inplace") for m in MUTATORS] + [(m, "copy") for m in MUTATORS] + [(q, "query") for q in QUERIES]
@@ -58,6 +60,8 @@ def call(svg, name, mode):
         return svg.round_floats(2, **kw)
     if name == "set_attributes":
         return svg.set_attributes((("fill", "purple"), ("data-x", "1")), xpath="//svg:g | /svg:svg", **kw)
+    if name == "set_viewbox":
+        return svg.set_attributes((("viewBox", "0 0 40 40"),), **kw)
     if name == "remove_attributes":
         return svg.remove_attributes(("opacity", "width"), xpath="//svg:g | /svg:svg", **kw)
     if name == "topicosvg":
@@ -145,7 +149,9 @@ def random_history(rng):
 
 
 def op_string(name, mode):
-    s = {"round_floats": "round_floats 2", "topicosvg": "topicosvg 3 0 0", "checkpicosvg": "checkpicosvg 0 0"}.get(name, name)
+    s = {"round_floats": "round_floats 2", "topicosvg": "topicosvg 3 0 0", "checkpicosvg": "checkpicosvg 0 0",
+         "set_attributes": "set_attributes fill=purple data-x=1", "remove_attributes": "remove_attributes opacity width",
+         "set_viewbox": "set_attributes viewBox=0_0_40_40"}.get(name, name)
     return ("copy:" + s) if mode == "copy" else s
 
 
@@ -199,6 +205,13 @@ def search(ctx, disagreements):
         h2 = list(all_histories(2))
         for i in range(0, len(h2), 400):
             jobs.append((DOCS[1], h2[i:i + 400]))
+    # anything an object could remember about its document must follow a later change of the document:
+    # query / consumer, then a change of the root's geometry attributes, then a consumer again
+    triples = [[a, b, c] for a in [("view_box", "query"), ("bounding_box", "query"), ("clip_to_viewbox", "inplace"), ("simplify", "inplace")]
+               for b in [("set_viewbox", "inplace"), ("set_viewbox", "copy"), ("remove_attributes", "inplace"), ("set_attributes", "inplace")]
+               for c in [("clip_to_viewbox", "inplace"), ("clip_to_viewbox", "copy"), ("simplify", "inplace"), ("topicosvg", "inplace"), ("view_box", "query")]]
+    for src in DOCS:
+        jobs.append((src, triples))
     nrand = 1500 if deep else (400 if ctx.escalate else 160)
     rnd = []
     for _ in range(nrand):
